@@ -131,10 +131,11 @@ type nfBuilder struct {
 	c      *Ctx
 	bind   map[ssa.Value]*nf // roles and pre-resolved values
 	active map[*ssa.Function]bool
+	inPhi  map[*ssa.Phi]bool
 }
 
 func newNF(c *Ctx) *nfBuilder {
-	return &nfBuilder{c: c, bind: map[ssa.Value]*nf{}, active: map[*ssa.Function]bool{}}
+	return &nfBuilder{c: c, bind: map[ssa.Value]*nf{}, active: map[*ssa.Function]bool{}, inPhi: map[*ssa.Phi]bool{}}
 }
 
 func (b *nfBuilder) Role(v ssa.Value, name string) { b.bind[v] = &nf{op: "role", name: name} }
@@ -193,12 +194,21 @@ func (b *nfBuilder) of(v ssa.Value, env nfEnv, d int) *nf {
 	case *ssa.Field:
 		return b.of(x.X, env, d+1).sel(fieldName(x.X.Type(), x.Field))
 	case *ssa.Phi:
+		if b.inPhi[x] {
+			// a value carried around a loop: named, not unrolled
+			return &nf{op: "const", name: "loop<" + x.Comment + ">"}
+		}
+		b.inPhi[x] = true
 		var xs []*nf
 		for _, e := range x.Edges {
 			if e == v {
 				continue
 			}
 			xs = append(xs, b.of(e, env, d+1))
+		}
+		delete(b.inPhi, x)
+		if len(xs) == 0 {
+			return &nf{op: "const", name: "loop<" + x.Comment + ">"}
 		}
 		return nfAlt(xs)
 	case *ssa.BinOp:
@@ -293,6 +303,11 @@ func (b *nfBuilder) local(al *ssa.Alloc, env nfEnv, d int) *nf {
 				default:
 					bad = true
 				}
+			}
+		case *ssa.MakeClosure:
+			// captured by a function literal: fine as long as the literal only reads it
+			if g, ok := in.Fn.(*ssa.Function); !ok || closureWritesCell(g, al) {
+				bad = true
 			}
 		case *ssa.Slice:
 			// the array handed on as a slice: content is what was stored
